@@ -85,7 +85,7 @@ func init() {
 	reg(&Prop{ID: "C11", Level: "exploration",
 		Quick:    Tier{Cases: 160000, PerJob: 10000, Seconds: 60},
 		Thorough: Tier{Cases: 8000000, PerJob: 100000, Seconds: 1500},
-		Rule:     "one case = chain shape as the CLI builds it (router of 1..3 elements, each a store or a failover group of 2..4, optionally under a cache with or without repair, optionally under a SwapStore with a second chain swapped in by a reconfiguration task, or - as the writable chunk server builds it - one writable member under a SwapWriteStore with Get/Has/Store clients) x per-member content per id {has, missing, invalid} x per-member fault schedule {healthy, always failing, failing during calls k..k+j} x 1..4 client tasks issuing 1..8 Get/Has over 2..4 ids under the seeded scheduler; oracle: per operation the member calls made by that task must be exactly the calls the documented policy makes given the observed member outcomes, and the result must be what the policy yields (swap: old chain before, new chain after, exactly one of them when overlapping; old members closed once, after their in-flight requests, never used afterwards); distinct = distinct (shape, clients, trace hash, member-call count); non-trivial = preemption or member fault fired; 1/400 of the cases give the real `desync cat` / `desync extract -n 1` a chain on its command line (1..3 -s arguments, each a local directory, a loopback HTTP server or a a|b|c failover group of those; optional -c cache pre-filled with valid and invalid chunks, with the default --cache-repair or --cache-repair=false; members healthy, answering 503 to everything, or dead; per-chunk content present / missing / a valid object of other data): exit status and output must be what the documented policy yields, every answering HTTP member must have seen exactly the requests the policy predicts, in order, and after a success the cache holds every chunk valid",
+		Rule:     "one case = chain shape as the CLI builds it (router of 1..3 elements, each a store or a failover group of 2..4, optionally under a cache with or without repair, optionally under a SwapStore with a second chain swapped in by a reconfiguration task, or - as the writable chunk server builds it - one writable member under a SwapWriteStore with Get/Has/Store clients) x per-member content per id {has, missing, invalid} x per-member fault schedule {healthy, always failing, failing during calls k..k+j} x 1..4 client tasks issuing 1..8 Get/Has over 2..4 ids under the seeded scheduler; oracle: per operation the member calls made by that task must be exactly the calls the documented policy makes given the observed member outcomes, and the result must be what the policy yields (swap: old chain before, new chain after, exactly one of them when overlapping; old members closed once, after their in-flight requests, never used afterwards); distinct = distinct (shape, clients, trace hash, member-call count); non-trivial = preemption or member fault fired; 1/400 of the cases give the real `desync cat` / `desync extract -n 1` a chain on its command line (1..3 -s arguments, each a local directory, a loopback HTTP server or a a|b|c failover group of those; optional -c cache pre-filled with valid and invalid chunks, with the default --cache-repair or --cache-repair=false; members healthy, answering 503 to everything, or dead; per-chunk content present / missing / a valid object of other data): exit status and output must be what the documented policy yields, every answering HTTP member must have seen exactly the requests the policy predicts, in order, and after a success the cache holds every chunk valid; a quarter of these cases instead start the real `desync chunk-server --store-file f [-u]` (with or without a cache in the file), hold a request in the old upstream, rewrite f to a second upstream and send SIGHUP while a steady stream of requests for a chunk both upstreams hold keeps going: the in-flight request must complete with the right data, the stream must never see an error, and afterwards the new chain answers (a chunk only the old one had is missing)",
 		Assumptions: []string{
 			"which failover member is consulted at each attempt is not predicted (it depends on a shared index); the oracle bounds attempts by the group size and requires success whenever one member never fails",
 			"de-duplication queues in chains are covered by C12, not here",
